@@ -415,7 +415,7 @@ PUMP_OPEN = ["", "${", "<%", "<%a", "<%!", "<%a b", "<%doc>", "<%text>", "% if "
              "<%\n'", "</%", "</%a", "x\n%%", "<%a:b ", '${"""', "<%a b='c' "]
 PUMP_TOK = [" ", "\t", "\n", "=", ",", '"', "'", "(", ")", "[", "]", "{", "}", "\\", "a", "#", "%", "<", ">", "|", "$", "/",
             "\r\n", "\\\n", " = ", '""', "''", "\\'", "a=", "${", "<%", "%>", " ,", ", ", " , ", "\t=", "=\n", ",\n", " a", "a ", '" "', "' '"]
-PUMP_CLOSE = ["", ">", "}", "%>", "\n", '"', "x", "/>", "!"]
+PUMP_CLOSE = ["", ">", "}", "%>", "\n", '"', "x", "/>", "!", "\r", "\rb\n"]  # (a lone CR ends no % / ## line)
 BUDGET_S = 2.0
 SIZES = (4, 8, 16, 32, 64)
 
